@@ -17,6 +17,7 @@ with the multiplication operator, to construct values such as `11 * e(-21)`.
 
 from enum import Enum
 from decimal import Decimal
+from fractions import Fraction
 from typing import Optional, Any, Union, Tuple
 from pydantic import BaseModel, Field
 from pydantic.dataclasses import dataclass
@@ -198,15 +199,22 @@ class Prefixed(BaseModel):
     # def __get_validators__(cls):
     #     yield cls.validate
 
+    def exact(self) -> Fraction:
+        """The exact (rational) value of this number."""
+        return Fraction(self.number) * Fraction(10) ** self.prefix.value
+
     def __hash__(self):
-        return hash((self.number, self.prefix))
+        # Numbers denoting the same value hash equally, however they are written,
+        # e.g. `1000 * m` and `1 * UNIT`, consistent with their comparing equal.
+        return hash(self.exact())
 
     def __int__(self) -> int:
-        return int(self.number) * 10**self.prefix.value
+        """Convert to int, truncating any fractional part"""
+        return int(self.exact())
 
     def __float__(self) -> float:
-        """Convert to float"""
-        return float(self.number) * 10**self.prefix.value
+        """Convert to (the nearest) float"""
+        return float(self.exact())
 
     def __neg__(self) -> "Prefixed":
         return Prefixed.new(-self.number, self.prefix)
@@ -310,28 +318,28 @@ class Prefixed(BaseModel):
 
     # Comparison operators that respect class convention
     def __lt__(self, other) -> bool:
-        lhs, rhs = _scale_to_smaller(self, other)
-        return round(lhs.number, EPSILON) < round(rhs.number, EPSILON)
+        lhs, rhs = _rounded_to_smaller(self, other)
+        return lhs < rhs
 
     def __le__(self, other) -> bool:
-        lhs, rhs = _scale_to_smaller(self, other)
-        return round(lhs.number, EPSILON) <= round(rhs.number, EPSILON)
+        lhs, rhs = _rounded_to_smaller(self, other)
+        return lhs <= rhs
 
     def __eq__(self, other) -> bool:
-        lhs, rhs = _scale_to_smaller(self, other)
-        return round(lhs.number, EPSILON) == round(rhs.number, EPSILON)
+        lhs, rhs = _rounded_to_smaller(self, other)
+        return lhs == rhs
 
     def __ne__(self, other) -> bool:
-        lhs, rhs = _scale_to_smaller(self, other)
-        return round(lhs.number, EPSILON) != round(rhs.number, EPSILON)
+        lhs, rhs = _rounded_to_smaller(self, other)
+        return lhs != rhs
 
     def __gt__(self, other) -> bool:
-        lhs, rhs = _scale_to_smaller(self, other)
-        return round(lhs.number, EPSILON) > round(rhs.number, EPSILON)
+        lhs, rhs = _rounded_to_smaller(self, other)
+        return lhs > rhs
 
     def __ge__(self, other) -> bool:
-        lhs, rhs = _scale_to_smaller(self, other)
-        return round(lhs.number, EPSILON) >= round(rhs.number, EPSILON)
+        lhs, rhs = _rounded_to_smaller(self, other)
+        return lhs >= rhs
 
 
 # Union of the types which can be converted to `Prefixed`
@@ -375,6 +383,19 @@ def _subtract(lhs: Prefixed, rhs: Prefixed) -> Prefixed:
     smaller = lhs.prefix if lhs.prefix.value < rhs.prefix.value else rhs.prefix
     newnum = lhs.scale(smaller).number - rhs.scale(smaller).number
     return Prefixed.new(newnum, smaller)
+
+
+def _rounded_to_smaller(
+    me: Prefixed, other: Union[Prefixed, ToPrefixed]
+) -> Tuple[Fraction, Fraction]:
+    """# Comparison operands: both values, in units of the smaller one's prefix, rounded to `EPSILON` places.
+    Computed on exact rationals, so that comparisons neither lose precision nor fail,
+    however many orders of magnitude separate the two values."""
+    other = to_prefixed(other)
+    lhs, rhs = me.exact(), other.exact()
+    smaller = me.prefix if lhs < rhs else other.prefix
+    unit = Fraction(10) ** smaller.value
+    return round(lhs / unit, EPSILON), round(rhs / unit, EPSILON)
 
 
 def _scale_to_smaller(
